@@ -87,6 +87,8 @@ def run_one(mod, run_seed, replay=None, lenient=False, keep_trace=False, variant
     res["sched"] = hashlib.sha1(repr(res["choices"]).encode()).hexdigest()[:16]
     if keep_trace:
         res["trace_tail"] = [repr(e) for e in sim.history[-60:]]
+        if getattr(sim, "line_log", None) is not None:
+            res["line_log"] = sim.line_log[-int(os.environ.get("VERIF_TRACE_LINES") or 200):]
     sim.history = []
     return res
 
@@ -461,6 +463,8 @@ def main(argv):
             print("  message: %s" % r["message"])
             for l in r.get("trace_tail", [])[-25:]:
                 print("    " + l)
+            for l in r.get("line_log", []):
+                print("    L " + l)
             return 1
         print("replay did not reproduce: status=%s fp=%s digest_match=%s msg=%s"
               % (r["status"], r.get("fingerprint"), r["digest"] == rp["digest"], r.get("message")))
